@@ -949,6 +949,39 @@ impl Family for FileArrangements {
     }
 }
 
+
+/// The cycle families of C05 (containment, alias and inheritance graphs), run here for the verdict only: whatever
+/// C05's oracle says about the diagnostics, the compilation must end without a crash, an abort or a hang.
+pub struct VerdictOnly {
+    inner: Box<dyn Family>,
+}
+impl Family for VerdictOnly {
+    fn name(&self) -> String {
+        format!("cycle-graphs-verdict-only/{}", self.inner.name())
+    }
+    fn len(&self) -> u64 {
+        self.inner.len()
+    }
+    fn describe(&self, idx: u64) -> Value {
+        self.inner.describe(idx)
+    }
+    fn hang_secs(&self) -> f64 {
+        20.0
+    }
+    fn crash_sig(&self, _idx: u64, how: &str) -> String {
+        format!("c01/cycle-graphs/{}/{how}", self.inner.name().split('/').next().unwrap_or(""))
+    }
+    fn run(&self, idx: u64) -> CaseOut {
+        let mut o = self.inner.run(idx);
+        o.violations.retain(|v| v.sig.contains("panic@"));
+        for v in &mut o.violations {
+            v.sig = format!("c01/cycle-graphs/{}", v.sig.split('/').skip(1).collect::<Vec<_>>().join("/"));
+        }
+        o.validated = 0;
+        o
+    }
+}
+
 pub fn families(tier: &str) -> Vec<Box<dyn Family>> {
     let quick = tier == "quick";
     let mut v: Vec<Box<dyn Family>> = vec![
@@ -964,6 +997,12 @@ pub fn families(tier: &str) -> Vec<Box<dyn Family>> {
     ];
     if !quick {
         v.push(Box::new(CharMutations::new(true)));
+    }
+    // C05's graph families: quick = aliases, inheritance, the 10-node graphs and all 2-node containment graphs
+    for (i, f) in super::c05::families(tier).into_iter().enumerate() {
+        if !quick || matches!(i, 0 | 1 | 2 | 3 | 4) {
+            v.push(Box::new(VerdictOnly { inner: f }));
+        }
     }
     v
 }
